@@ -161,7 +161,19 @@ Definition mstep (t : tbl) (o : mop) : res * tbl :=
   | MRedeem id chips =>
       match find_idx t id with
       | None => (Err, t)
-      | Some i => (Ok, with_players t (map_nth (t_players t) i (fun p => add_bank p chips)))
+      | Some i =>
+          (* add-on; a player who has chips now can be dealt in again, as after a re-buy *)
+          let t1 := with_players t (map_nth (t_players t) i (fun p => add_bank p chips)) in
+          match nth_error (t_players t1) i with
+          | Some p =>
+              if 0 <? tp_bank p then
+                match update_chips (t_sm t) id true with
+                | (Ok, s') => (Ok, with_sm t1 s')
+                | (Err, _) => (Err, t1)
+                end
+              else (Ok, t1)
+          | None => (Ok, t1)
+          end
       end
   | MLeave ids => batch_remove t ids
   | MUpdate joins drawn leaves =>
